@@ -8,6 +8,8 @@ use std::{borrow::Cow, io};
 use bstr::{BStr, ByteSlice};
 
 pub use self::value::Value;
+#[cfg(kani)]
+pub(crate) use self::value::parse_value as verif_kani_parse_value;
 pub(super) use self::{tag::parse_tag, value::parse_value};
 
 pub(super) fn parse<'a>(t: &'a [u8], v: &'a [u8]) -> (Cow<'a, BStr>, Value<'a>) {
